@@ -285,6 +285,11 @@ def nilsimsa_call_after_update():
     o = Nilsimsa(); o.update(b'abc')
     return o(bytes(range(70))) == Nilsimsa()(bytes(range(70)))
 
+def skein_empty_key():
+    # Skein 1.3 section 3.5.2: an empty key means K' = 0 (no key stage), i.e. the plain hash
+    from crysp.skein import Skein
+    return Skein(256, 256, key=b'')(b'x') == Skein(256, 256)(b'x') and Skein(512, 512, key=b'k')(b'x') != Skein(512, 512)(b'x')
+
 ALL = [v for k, v in list(globals().items()) if callable(v) and not k.startswith('_') and getattr(v, '__module__', None) == '__main__']
 
 if __name__ == '__main__':
